@@ -421,7 +421,7 @@ class FakeRaceEs:
     def _select(self, index, body):
         query = (body or {}).get("query", {"match_all": {}})
         keys = [k for k in self.docs if fnmatch.fnmatchcase(k[0], index)]
-        return [k for k in keys if es_match(self.docs[k]["src"], query)]
+        return [k for k in keys if es_match(dict(self.docs[k]["src"], _index=k[0], _id=k[1]), query)]  # term queries may address the metadata fields
 
     def search(self, index=None, body=None, **kwargs):
         if kwargs:
@@ -1126,25 +1126,26 @@ def _cause(clause, events, line):
     ev = events[line - 1]
     a = ev["a"]
     before = events[line - 2]["st"] if line >= 2 else {"files": [], "dirs": [], "es": []}
+    fixed = [s for s in os.environ.get("VERIF_RACESTORE_FIXED", "").split(",") if s]  # a repaired deviation explains nothing
     if a["op"] == "List":
         p = a["p"]
         if a["be"] == "file":
             docs = [f["d"] for f in before["files"] if f["k"] == "ok"]
-            if p["name"] and clause == "ListSound" and any(d["tags"]["name"] == p["name"] == d["tags"]["bname"] for d in docs) and not p["track"]:
+            if "NameFilterSound" not in fixed and p["name"] and clause == "ListSound" and any(d["tags"]["name"] == p["name"] == d["tags"]["bname"] for d in docs) and not p["track"]:
                 return "NameFilterSound: --benchmark-name lists a race whose tags name and benchmark-name both match twice"
-            if p["name"] and p["track"] and clause == "ListComplete" and any(d["tags"]["bname"] == p["name"] != d["tags"]["name"] for d in docs):
+            if "NameFilterSound" not in fixed and p["name"] and p["track"] and clause == "ListComplete" and any(d["tags"]["bname"] == p["name"] != d["tags"]["name"] for d in docs):
                 return "NameFilterSound: --track with --benchmark-name drops the races that match by the tag benchmark-name only"
-            if p["chal"] and clause in ("ListSound", "ListComplete") and any(d["chal"] != p["chal"] for d in docs):
+            if "FileChallengeFilter" not in fixed and p["chal"] and clause in ("ListSound", "ListComplete") and any(d["chal"] != p["chal"] for d in docs):
                 return "FileChallengeFilter: FileRaceStore.list ignores --challenge"
         return "?"
     if a["op"] == "Store":
-        if a["be"] != "es" and a["cid"] != a["r"]["id"]:
+        if "StoreByRaceId" not in fixed and a["be"] != "es" and a["cid"] != a["r"]["id"]:
             return "StoreByRaceId: store_race under a configuration whose race id differs from race.race_id"
-        if a["be"] != "file" and any(x["d"]["id"] == a["r"]["id"] and x["ix"] != a["r"]["ts"] // (TPD * DPM) for x in before["es"]):
+        if "EsOneDocPerRace" not in fixed and a["be"] != "file" and any(x["d"]["id"] == a["r"]["id"] and x["ix"] != a["r"]["ts"] // (TPD * DPM) for x in before["es"]):
             return "EsOneDocPerRace: the race id was stored before with a timestamp in another month"
         return "?"
     if a["op"] == "Find":
-        if a["be"] == "file" and any(f["k"] == "ok" and f["d"]["id"] != f["dir"] for f in before["files"]):
+        if "StoreByRaceId" not in fixed and a["be"] == "file" and any(f["k"] == "ok" and f["d"]["id"] != f["dir"] for f in before["files"]):
             return "StoreByRaceId: a race.json sits in the directory of another race id"
         return "?"
     return "?"
@@ -1246,7 +1247,7 @@ def run(ctx, out):
     for cfg, expect in LEG_M + ([] if quick else [("RaceStore.thorough.cfg", None)]):
         wd = tlc.prepare_workdir("RaceStore", "xracestore-mc")
         is_rec = cfg == "RaceStore.rec.cfg"
-        res = tlc.run_tlc(wd, "MC_RaceStore", cfg, workers=1 if (expect or is_rec) else 4 if quick else 8, timeout=280 if quick else 1500, allow_violation=True, dump=dump if is_rec else None)
+        res = tlc.run_tlc(wd, "MC_RaceStore", cfg, workers=1 if expect else 4 if quick else 8, timeout=280 if quick else 1500, allow_violation=True, dump=dump if is_rec else None)
         out.add_tlc(res)
         shutil.rmtree(wd, ignore_errors=True)
         if expect is None:
@@ -1263,13 +1264,13 @@ def run(ctx, out):
     )
     out.exhaustive = False
     # ---- Leg S2C + C2S
-    sims = behaviours_from_tlc(ctx, out, "RaceStore.sim.cfg", 120 if quick else 1600, 25, 23)
-    sims += behaviours_from_tlc(ctx, out, "RaceStore.simmis.cfg", 24 if quick else 200, 20, 24)
+    sims = behaviours_from_tlc(ctx, out, "RaceStore.sim.cfg", 100 if quick else 1600, 22, 23)
+    sims += behaviours_from_tlc(ctx, out, "RaceStore.simmis.cfg", 20 if quick else 200, 18, 24)
     out.note("leg S2C: %d TLC behaviours (%d of them with stores under a configuration with another race id)" % (len(sims), sum(1 for c in sims if "simmis" in c["src"])))
     run_cases(sims, out, "sim", scratch)
     pick = next((c for c in sims if sum(1 for o in c["ops"] if o["op"] == "Store") >= 3), sims[0])
     out.sample({"source": pick["src"], "ops": [{k: (v if k != "r" else {f: v[f] for f in ("id", "ts", "track", "tags", "res")}) for k, v in o.items()} for o in pick["ops"][:8]]})
-    recs, total = record_cases_from_dump(dump, random.Random(ctx.seed + 7), 700 if quick else 0)
+    recs, total = record_cases_from_dump(dump, random.Random(ctx.seed + 7), 500 if quick else 12000)
     os.remove(dump)
     out.note("leg S2C: %d of the %d Store states of the record configuration" % (len(recs), total))
     run_cases(recs, out, "rec", scratch, chunk=2000)
@@ -1281,7 +1282,7 @@ def run(ctx, out):
             failing.setdefault(v.case["src"], set()).add(v.signature["clause"])
     out.extra["directed"] = {c["src"]: ("fails " + ",".join(sorted(failing[c["src"]])) if c["src"] in failing else "all invariants hold") for c in directed}
     out.note("directed executions: %s" % out.extra["directed"])
-    rnd = random_cases(ctx.seed + 1, 250 if quick else 5000)
+    rnd = random_cases(ctx.seed + 1, 200 if quick else 5000)
     run_cases(rnd, out, "rnd", scratch)
     out.sample({"source": "random", "ops": [{k: v for k, v in o.items() if k not in ("r", "c", "d")} for o in rnd[0]["ops"][:10]]})
     out.note("leg C2S: %d executions validated by TLC, %d L1 findings, %d drift" % (out.traces_validated, len(out.violations), len(out.drift)))
